@@ -210,6 +210,11 @@ def format_datetime(dttm):
 
     """
 
+    if not isinstance(dttm, dt.datetime):
+        # a plain date (the JSON encoders hand dates over too): midnight UTC,
+        # as parse_into_datetime() reads a date
+        dttm = dt.datetime.combine(dttm, dt.time())
+
     if dttm.tzinfo is None or dttm.tzinfo.utcoffset(dttm) is None:
         # dttm is timezone-naive; assume UTC
         zoned = pytz.utc.localize(dttm)
